@@ -1249,6 +1249,12 @@ def apply_method_contract(eng, fi, c, args, kwargs, node):
     eng.st.ghost['old_heap_stack'] = eng.st.ghost.get('old_heap_stack', []) + [old]
     try:
         if idx > 0:
+            # exceptional exits of an entry point are checked against the invariant and the guarantees as well
+            if c.extra.get('establishes_invariant', True):
+                for ref in eng.st.ghost.get('inv_objects', {}).values():
+                    H.assume_invariant(eng, ref)
+                    if not c.extra.get('no_guarantee'):
+                        H.assume_rely(eng, ref, old)
             raise PyRaise(outcomes[idx][0].split('[')[0], msg='raised by %s' % nm)
         res = eng.fresh(c.ret_ty, 'r_' + nm.split('.')[-1]) if c.ret_ty != NONE else VNONE
         fr_c.ghost['result'] = res
